@@ -26,6 +26,9 @@ func init() {
 				p.MaxOps = 120
 			}
 			pl := v1x.MakePlan(c.Rng, p)
+			if v1x.BoundaryLengthVariant(pl, c.Index) {
+				c.Obs("histories_with_a_key_of_boundary_length", 1)
+			}
 			if c.Index%6 == 3 {
 				pl.Cfg.Backend = "prefix" // (PrefixDB over MemDB, prefix slice with spare capacity)
 			}
